@@ -624,7 +624,7 @@ def negative(draw, tier):
     return {"kind": "negative", "why": "lenient", "expr": expr, "lenient": py, "slot": "cond", "allow": True}
 
 
-FUZZ_RUNS = {"thorough": 4000}  # libFuzzer runs per shard of the coverage-guided sub-engine (vcheck/fuzz.py)
+FUZZ_RUNS = {"thorough": 1500}  # libFuzzer runs per shard of the coverage-guided sub-engine (vcheck/fuzz.py)
 
 
 @st.composite
